@@ -107,6 +107,10 @@ def multi_of(o):
 
 def line(c, o):
     m = multi_of(o)
+    if SC.schema_part(c, m) is None:
+        # some run crashed or panicked: the plain line (whose observations decode to ICrash / IPanic) fails the case
+        return "(c06 %s %s %s %s %s %s)" % (G.sx(c["name"]), G.w_envdef(c["def"]), G.w_world(dict(c, provs={}) if c.get("schema_only") else c),
+                                            G.w_obs(m[0]), G.w_obs(m[1]), G.w_obs(m[2]))
     if c.get("schema_only"):
         # providers declaring unions: outside the evaluator model's vocabulary; the schema oracle alone
         return "(c06s %s %s)" % (G.w_envdef(c["def"]), SC.schema_part(c, m))
